@@ -9,6 +9,7 @@ import Got.Lemmas.SortQuick
 import Got.Lemmas.SortCostQuick
 import Got.Lemmas.SortAstAll
 import Got.Lemmas.SortAstPivotSem
+import Got.Lemmas.SortAstUnique
 /- property theorems of C15 (only theorems + non-vacuity examples live here) -/
 open Got.Model.Sort Got.Model.SortUnique
 open Got.Lemmas.Sort (StrictWeak)
@@ -470,5 +471,41 @@ example : ∃ fuel, sliceByAst fuel (stdLess (fun (x y : Int) => decide (x < y))
   obtain ⟨f0, h⟩ := C15_translated_source_sliceBy_refines_model (stdLess (fun (x y : Int) => decide (x < y)))
     #[14, 13, 12, 11, 10, 9, 8, 7, 6, 5, 4, 3, 2, 1] #[0, 1, 2, 3, 4, 5, 6, 7, 8, 9, 10, 11, 12, 13] (by decide)
   exact ⟨f0, h f0 (Nat.le_refl _)⟩
+
+/-! ### UniqueInt / UniqueString, translated
+
+`Got/Generated/AstSortxUnique.lean` holds the MiniGoSlice terms (Got/Model/MiniGoSlice.lean: one slice with Go's index and
+reslice run-time checks, int locals) regenerated from /repo/sortx/unique.go on every run.  `F.run fuel a` =
+`some (some (returned slice, backing array))`, `some none` = panic, `none` = out of fuel. -/
+
+/-- The translator accepted both functions. -/
+theorem C15_unique_translation_in_fragment : Got.Generated.AstSortxUnique.notes = ["ok", "ok"] := by decide
+
+/-- **Translator tie, UniqueInt**: interpreting the translated source — bounds-checked `a[i] != a[j]`, `a[j+1] = a[i]`,
+    `a = a[:j+1]` — returns exactly the model's `unique a` (returned slice and backing array, no panic), for every
+    slice of fewer than 2^62 elements of any type with decidable equality. -/
+theorem C15_translated_source_uniqueInt_refines_model {α : Type} [DecidableEq α] (a : Array α) (hsz : a.size < 2 ^ 62) :
+    ∃ f0, ∀ fuel, f0 ≤ fuel → Got.Generated.AstSortxUnique.uniqueInt.run fuel a = some (unique a) :=
+  Got.Lemmas.SortAstUnique.uniqueInt_refines a hsz
+
+/-- **Translator tie, UniqueString** (same body, re-translated separately). -/
+theorem C15_translated_source_uniqueString_refines_model {α : Type} [DecidableEq α] (a : Array α) (hsz : a.size < 2 ^ 62) :
+    ∃ f0, ∀ fuel, f0 ≤ fuel → Got.Generated.AstSortxUnique.uniqueString.run fuel a = some (unique a) :=
+  Got.Lemmas.SortAstUnique.uniqueString_refines a hsz
+
+/-- C15 (a) for the translated source: UniqueInt as translated never panics and returns the input with every run of equal
+    adjacent elements collapsed to its first element; the backing array keeps its length. -/
+theorem C15_translated_source_unique {α : Type} [DecidableEq α] (a : Array α) (hsz : a.size < 2 ^ 62) :
+    ∃ f0, ∀ fuel, f0 ≤ fuel → ∃ r b,
+      Got.Generated.AstSortxUnique.uniqueInt.run fuel a = some (some (r, b)) ∧
+      Got.Generated.AstSortxUnique.uniqueString.run fuel a = some (some (r, b)) ∧
+      r.toList = collapseRuns a.toList ∧ b.size = a.size := by
+  obtain ⟨f1, h1⟩ := C15_translated_source_uniqueInt_refines_model a hsz
+  obtain ⟨f2, h2⟩ := C15_translated_source_uniqueString_refines_model a hsz
+  obtain ⟨r, b, hu, hr, hb⟩ := C15_unique a
+  exact ⟨f1 + f2, fun fuel hf => ⟨r, b, by rw [h1 fuel (by omega), hu], by rw [h2 fuel (by omega), hu], hr, hb⟩⟩
+
+example : Got.Generated.AstSortxUnique.uniqueInt.run 20 (#[1, 1, 2] : Array Nat) = some (some (#[1, 2], #[1, 2, 2])) := by
+  decide
 
 end TranslatedSource
